@@ -415,6 +415,47 @@ def evaluate(ctx, cases, stream=None):
 
 
 # ------------------------------------------------------------------------------------------------
+# functions the hand-written model mirrors, with the digest (extract.digest: normalised AST, docstrings stripped) they had
+# when the model was written (= the tree with fixes/C12_1..3 applied). A different digest is not a violation: it only
+# raises the number of generated cases of a quick run (DESIGN 3.1), so that edited code gets the most scrutiny.
+
+MIRRORED = {
+    'shelxfile/misc/dsrmath.py::OrthogonalMatrix.__init__': '3c31918c769b9a21',
+    'shelxfile/misc/dsrmath.py::OrthogonalMatrix.__mul__': '16dd3aa1c9d4bfc7',
+    'shelxfile/misc/dsrmath.py::OrthogonalMatrix.inversed': '24e5b8d9ebfd69dd',
+    'shelxfile/misc/dsrmath.py::Matrix.__mul__': '181c8671b32b8e5b',
+    'shelxfile/misc/dsrmath.py::Matrix.dot': 'fa90cb2a008d892c',
+    'shelxfile/misc/dsrmath.py::Matrix.transposed': '8b8dea909310ee27',
+    'shelxfile/misc/dsrmath.py::Matrix.inversed': '8126644553a4d080',
+    'shelxfile/misc/dsrmath.py::Matrix.det': '9719f7b4d4721ea3',
+    'shelxfile/misc/dsrmath.py::Matrix.trace': '718bc41772e950b2',
+    'shelxfile/misc/dsrmath.py::vol_unitcell': '721b2f3941e15b4d',
+    'shelxfile/misc/dsrmath.py::atomic_distance': '3f49d34ea92faad4',
+    'shelxfile/misc/misc.py::frac_to_cart': '8f45ec6431309cf4',
+    'shelxfile/misc/misc.py::cart_to_frac': '739a9d694e37001f',
+    'shelxfile/misc/misc.py::determinante': '4f92b5591c938547',
+    'shelxfile/shelx/cards.py::CELL.__init__': 'c3ace7d5b0be17cc',
+    'shelxfile/shelx/cards.py::CELL.volume': '0272221be2bf80e7',
+    'shelxfile/atoms/atom.py::Atom.ustar': '7e22a78d8571f922',
+    'shelxfile/atoms/atom.py::Atom.u_cart': '017ab2676bca573f',
+    'shelxfile/atoms/atom.py::Atom.set_ueq': 'f63c1b694665e086',
+    'shelxfile/atoms/atom.py::Atom.set_ucif': '3a3ebd1f1cb46f8f',
+    'shelxfile/atoms/atom.py::Atom.is_npd': '76fa665987c727c5',
+    'shelxfile/shelx/shelx.py::Shelxfile.frac_to_cart': '624ca994a0bda9b9',
+}
+
+
+def mirrored_changed():
+    try:
+        import sys
+        if str(core.VERIF / 'extract') not in sys.path:
+            sys.path.insert(0, str(core.VERIF / 'extract'))
+        import extract  # type: ignore
+        _, changed = extract.compute_digests(core.REPO, {q: dict(digest=d, props=['C12']) for q, d in MIRRORED.items()})
+        return sorted(changed)
+    except Exception as e:  # the digests are an optimisation of the budget, never a verdict
+        return [f'(digests not computed: {e!r})']
+
 
 def run(ctx):
     ctx.rule = ('generated files: one CELL (triclinic, monoclinic in each setting, orthorhombic, tetragonal, hexagonal with gamma = 120, '
@@ -428,12 +469,17 @@ def run(ctx):
                        'exact Sylvester test (Rat)',
                        'tensors within a relative 1e-9 of singular are not compared for is_npd',
                        'exact arithmetic in the theorems; float residuals are bounded by the 1e-9 comparison of every case']
-    n = ctx.budget(600, 40000)
+    changed = mirrored_changed()
+    if changed:
+        ctx.note('mirrored source differs from the tree the model was written against: ' + ', '.join(changed))
+        ctx.extra['mirrored_functions_changed'] = changed
+    thorough = ctx.tier == 'thorough'
+    n = 40000 if thorough else (3000 if (changed or ctx.escalated) else 600)
     cases = []
     for cls in CLASSES:          # every class in every run
         for _ in range(3):
             cases.append(make_case(ctx.rng, cls))
-    if ctx.tier == 'thorough' or ctx.escalated:
+    if thorough or changed or ctx.escalated:
         # grid of special angles (sign errors of a cosine term show at obtuse/acute pairs)
         grid = [60.0, 75.0, 90.0, 105.0, 120.0]
         for al in grid:
@@ -447,7 +493,7 @@ def run(ctx):
         ctx.extra['grid'] = 'all angle triples from {60, 75, 90, 105, 120} with positive volume'
     for _ in range(n):
         cases.append(make_case(ctx.rng))
-    for _ in range(ctx.budget(500, 8000)):     # the class on which an unshifted eigenvalue iteration is slow
+    for _ in range(8000 if thorough else (1000 if (changed or ctx.escalated) else 500)):     # the class on which an unshifted eigenvalue iteration is slow
         cases.append(make_case(ctx.rng, ukinds=['eqmod']))
     for i in range(0, len(cases), 400):
         evaluate(ctx, cases[i:i + 400])
